@@ -251,7 +251,7 @@ func (c *recursionChecker) checkType(typeName string, types map[string]schema.Ty
 
 	t := types[typeName]
 	// The properties a type inherits are as required as the ones written in it.
-	if rt, ok := c.rootTypes[typeName]; ok && rt.Schema().IsCopyOf(t.Schema()) {
+	if rt, ok := c.rootTypes[typeName]; ok && t.Schema() != nil && rt.Schema().IsCopy() {
 		t = rt
 	}
 	if t.Schema() == nil {
